@@ -29,7 +29,21 @@ contract(INDEX, 'LocMap.map_slice_args',
     ],
     yield_update=['n = n + 1'],
     at_exit=['n == 3'],
+    concrete_inputs='specs.t2_locmap:concrete_inputs',
     requires_concrete=[],
     raises_concrete={'LocInvalid': '(key.start is not None and key.start not in _map) or (key.stop is not None and key.stop not in _map)'},
     at_yield_concrete=[],
     at_exit_concrete=['yields == ref_map_slice_args(_map, key, offset)'])
+
+
+def concrete_inputs(model):
+    """counter-model -> (dict.get of a 3-label map, slice of label strings, offset); every label token of the model is held"""
+    key = model.get('key') or {}
+    toks = [t for t in (key.get('start'), key.get('stop')) if t is not None]
+    labels = []
+    for t in ['l0', 'l1'] + [str(t) for t in toks]:
+        if t not in labels:
+            labels.append(t)
+    mp = {l: i for i, l in enumerate(labels)}
+    k = slice(None if key.get('start') is None else str(key['start']), None if key.get('stop') is None else str(key['stop']), key.get('step'))
+    return dict(label_to_pos=mp.get, key=k, labels=None, offset=model.get('offset'), _map=mp)
